@@ -465,6 +465,18 @@ def run_check(ctx, modules, oracles, faults, explanation, extra_trusted=(), part
                 failures.append({"clause": o["fail"][0], "signature": f"{ctx.prop_id}.{o['fail'][0]}", "detail": o["fail"][1],
                                  "replay": {"real_async": o["cfg"]}})
         corr.distribution["real_event_loop_scenarios"] = nreal
+        # AsyncRunner + executor-based function on a REAL ThreadPoolExecutor with fewer workers than ntasks (evaluations queue up in
+        # the executor): nothing may START after the runner told the learner to discard its unfinished points / after it stopped
+        from harness import runner_real_threads as rth
+        nthr = 0
+        for cfg_t in rth.gen(ctx.rng, ctx.n(30, 300)):   # (sequentially: each scenario owns a thread pool; 60 take < 1 s)
+            o = rth.scenario(cfg_t)
+            nthr += 1
+            corr.count("real_threads:" + str(o.get("status")))
+            if o["fail"]:
+                failures.append({"clause": o["fail"][0], "signature": f"{ctx.prop_id}.{o['fail'][0]}:thread_pool", "detail": o["fail"][1],
+                                 "replay": {"real_threads": o["cfg"]}})
+        corr.distribution["real_thread_pool_scenarios"] = nthr
     cfgs = [gen_cfg(ctx.rng, faults, ctx.thorough) for _ in range(ctx.n(400, 6000))]
     nsmall = 0
     for c in small_cfgs(*( (3, 5) if ctx.thorough else (2, 4) ), faults):
@@ -539,6 +551,11 @@ def replay(ctx, path, oracles):
     if "real_time" in cfg:
         from harness import runner_real_time as rt
         o = rt.scenario(cfg["real_time"])
+        print(o)
+        return 1 if o["fail"] else 0
+    if "real_threads" in cfg:
+        from harness import runner_real_threads as rth
+        o = rth.scenario(cfg["real_threads"])
         print(o)
         return 1 if o["fail"] else 0
     if "real_async" in cfg:
